@@ -1952,6 +1952,20 @@ def log_read_tolerates_any_bytes(ctx, rid, body=None, text=None):
 # ------------------------------------------------------------------------------------------------
 # R17.10 / R1.17 (F-AM)  "not there" includes ENOTDIR wherever a path is stat'ed or resolved for a record
 
+def tests_notfound(body):
+    """does the body ask whether an io::Error is NotFound: `e.kind() == ErrorKind::NotFound` (the variant is built for
+    the comparison) or `match e.kind() { ErrorKind::NotFound => .. }` (a switch on the kind with an arm for variant 0)"""
+    if "NotFound" in json_text([st for blk in body.blocks for st in blk["stmts"]]):
+        return True
+    ba = BA.of(body)
+    kinds = {body.blocks[i]["term"]["dest"]["l"] for i in ba.calls(r"std::io::error::Error::kind|std::io::Error::kind")}
+    for sw in sorted(ba.live):
+        es = ba.enum_switch(sw)
+        if es and not es[0]["p"] and es[0]["l"] in kinds and 0 in es[1]:
+            return True
+    return False
+
+
 def _mentions_enotdir(body):
     txt = json_text([st for blk in body.blocks for st in blk["stmts"]])
     return "ENOTDIR" in txt or "NotADirectory" in txt
@@ -1962,11 +1976,14 @@ def stat_treats_enotdir_as_missing(ctx, rid):
     prog = ctx.prog
     n = 0
     for q, role in ((r"state::File::read_stamp_st", "stamp"), (r"state::realdirpath", "name")):
+        if q.endswith("read_stamp_st") and not prog.find(q):
+            q = r"state::File::read_stamp"       # the stat helper merged into its only caller
         b = prog.one(q)
         ba = BA.of(b)
         # the decision `is this error a plain 'does not exist'`: comparisons with ErrorKind::NotFound in the body or its local helpers
         bodies = [b] + [prog.bodies[x] for i in ba.all_calls() for x in callee_paths(b.blocks[i]["term"]) if x in prog.bodies and x.startswith("state::")]
-        nf = [bb for bb in bodies if "NotFound" in json_text([st for blk in bb.blocks for st in blk["stmts"]])]
+        bodies += [c_ for c_ in closure_family(prog, b) if c_ not in bodies]
+        nf = [bb for bb in bodies if tests_notfound(bb)]
         if not nf:
             raise AnchorError("%s: the NotFound test of %s not located" % (rid, b.key))
         n += 1
@@ -2102,6 +2119,15 @@ def setup_gets_the_validated_jobs_value(ctx, rid):
                     l = op_local(st["rv"][side])
                     if c is not None and c >= 100 and l is not None:
                         checked.add(cell(l))
+    # `!(0..=1000).contains(&j)`
+    for i in ba.calls(r"core::ops::(range::)?Range(Inclusive)?(::<.*>)?::contains|.*Range(Inclusive)?<.*>::contains|.*RangeBounds.*::contains"):
+        t_ = b.blocks[i]["term"]
+        if len(t_["args"]) > 1 and op_local(t_["args"][1]) is not None:
+            l_ = op_local(t_["args"][1])
+            pl_ = ba.resolve_ref(l_)
+            if pl_ is not None:
+                checked.add(common.place_key(b, pl_) if pl_["p"] else cell(pl_["l"]))
+            checked.add(cell(l_))
     if not checked:
         raise AnchorError("%s: the range check of --jobs in %s not located" % (rid, b.key))
     for k, i in enumerate(su):
